@@ -1329,6 +1329,15 @@ theorem mem_extLinksOf (orig q : List Ent) (hn : noBlockDataIn orig = true) (t m
     · exact mem_extLinks orig q hn t m e h
     · exact mem_extLinksOf orig q hn t m es h
 
+/-! ### `proc_internals` off: the display list plays no part -/
+
+theorem pruneKids_off_display (cfg : Cfg) (cl : PClass) (d d' : List Word) :
+    (cs : Ents) → pruneKids cfg cl true d cs = pruneKids cfg cl true d' cs
+  | .nil => by simp [pruneKids]
+  | .cons e rest => by
+    simp only [pruneKids, if_true]
+    rw [pruneKids_off_display cfg cl d d' rest]
+
 /-! ### name links of `bound_declaration` -/
 
 theorem bindLinked_page (orig q : List Ent) (b : Bool) (d : Nat) (h : bindLinked true orig q b d = true) :
